@@ -37,7 +37,7 @@ def program(draw, nmax=8, kinds=('call', 'await', 'map', 'amap', 'wait'), immedi
     T = draw(st.sampled_from([0.25, 1.0]))
     fdur = draw(st.sampled_from([0, 0, T / 2, 2 * T]))
     fails = [i for i in range(1, 7) if draw(st.integers(0, 15)) < fail_p]
-    grid = [0, 0, U, T / 2, T - U, T, T + U, 2 * T, 3 * T]
+    grid = [0, 0, 0, U, T / 2, T - U, T, T + U, 2 * T, 3 * T]
     counter = [0]      # values start at 0: a falsy argument is an argument like any other
 
     def fresh(n):
@@ -71,11 +71,17 @@ def program(draw, nmax=8, kinds=('call', 'await', 'map', 'amap', 'wait'), immedi
     t = 0.0
     for i in range(draw(st.integers(1, nmax))):
         gap = draw(st.sampled_from(grid)) if i else 0.0
+        follow = bool(prog) and prog[-1]['op'] == 'wait' and 'call' in kinds and draw(st.integers(0, 1)) == 0
+        if follow:
+            gap = 0.0      # a submission landing inside the wait()'s own join / yield / cancel steps
         t += gap
-        op = one_op(t, kinds)
-        if i and gap == 0 and draw(st.integers(0, 2)) == 0:
+        op = one_op(t, ('call',) if follow else kinds)
+        if i and gap == 0:
             # same virtual instant as the previous op: choose how many loop iterations later it happens
-            op['iters'] = draw(st.integers(1, 4))
+            # (more often right after a wait(): its join / sleep(0) / cancel steps are one iteration apart)
+            after_wait = prog[-1]['op'] == 'wait'
+            if draw(st.integers(0, 2)) == 0 or after_wait:
+                op['iters'] = draw(st.sampled_from([1, 2, 3, 4]))
         prog.append(op)
     # a deliberately duplicated value
     vals = [o['x'] for o in prog if o['op'] == 'call']
